@@ -382,7 +382,7 @@ def _resume_run(root, N, j, how, opt):
     if how == "clean":
         a = H.train(d, grads, batches, j + 1, lr=0.5, opt=opt, sched=_sched, seen=s1, lazy_batches=True)
     else:
-        a = H.train(d, grads, batches, N, lr=0.5, opt=opt, sched=_sched, seen=s1, kill_at=j, lazy_batches=True)
+        a = H.train(d, grads, batches, N, lr=0.5, opt=opt, sched=_sched, seen=s1, kill_at=j, lazy_batches=True, kill_kind="runtime" if how == "runtime" else "kill")
     b = H.train(d, grads, batches, N, lr=0.5, opt=opt, sched=_sched, seen=s2, resume=True, lazy_batches=True)
     shutil.rmtree(d)
     return {"full": full, "first": a, "resumed": b, "seen_first": [x[0] for x in s1], "seen_resumed": [x[0] for x in s2], "seen_full": [x[0] for x in full_seen]}
@@ -390,11 +390,11 @@ def _resume_run(root, N, j, how, opt):
 
 def gen_resume_cases(ctx):
     rng = ctx.rng
-    cases = [(10, 7, "kill", "sgd"), (10, 6, "clean", "sgd"), (8, 3, "kill", "sgd"), (9, 5, "kill", "adam")]
+    cases = [(10, 7, "kill", "sgd"), (10, 6, "clean", "sgd"), (8, 3, "kill", "sgd"), (9, 5, "kill", "adam"), (10, 8, "runtime", "sgd"), (12, 6, "runtime", "adam")]
     for _ in range(ctx.n(10, 120)):
         N = rng.randint(6, 20 if not ctx.thorough else 60)
         j = rng.randint(0, N - 1)
-        cases.append((N, j, rng.choice(["clean", "kill", "kill"]), rng.choice(["sgd", "sgd", "adam"])))
+        cases.append((N, j, rng.choice(["clean", "kill", "kill", "runtime"]), rng.choice(["sgd", "sgd", "adam"])))
     return cases
 
 
@@ -410,7 +410,7 @@ def _correspond_resume(ctx, root):
         except Exception as e:  # noqa
             runs.append(None)
             impl = ["raises", type(e).__name__ + ": " + str(e)[:120]]
-        terms.append((impl, "resume_trace %d %d %s" % (N, j, "true" if how == "kill" else "false")))
+        terms.append((impl, "resume_trace %d %d %s" % (N, j, "true" if how in ("kill", "runtime") else "false")))
     vals = coqrun.eval_terms("c15_resume", PRE, [t for _, t in terms], ctx.work, gen_dir=ctx.gen_dir)
     for (N, j, how, opt), (impl, _), mv in zip(cases, terms, vals):
         a, b = mv
@@ -461,6 +461,7 @@ def oracles(ctx, deep):
                 for j in range(N):
                     cases.append((N, j, "kill", "sgd"))
                     cases.append((N, j, "clean", "sgd"))
+                    cases.append((N, j, "runtime", "sgd"))
         res = []
         for c in cases:
             try:
@@ -469,7 +470,7 @@ def oracles(ctx, deep):
                 res.append((c, None))
     for (N, j, how, opt), r in sorted(res, key=lambda t: (t[0][0], t[0][1])):
         runs += 1
-        call = "train %d iterations (%s, WarmupMultiStepLR), %s at iteration %d, resume" % (N, opt, "stop cleanly after" if how == "clean" else "kill signal during", j)
+        call = "train %d iterations (%s, WarmupMultiStepLR), %s iteration %d, resume" % (N, opt, {"clean": "stop cleanly after", "kill": "kill signal during", "runtime": "RuntimeError raised inside"}[how], j)
         if r is None:
             add(Violation("resume-runs", "%s: raises" % call, {"call": call}, {"kind": "raises"}))
             continue
